@@ -18,7 +18,8 @@
    time-out in super mode settles nothing. *)
 From Coq Require Import List ZArith Bool.
 From SVC Require Import Base.AMap Base.Res Base.Dec Model.Types Model.Pricing
-  Model.Handlers Model.EndBlock Model.Step Proofs.Inv Proofs.TraceLemmas Proofs.TraceSettle.
+  Model.Handlers Model.EndBlock Model.Step Proofs.Inv Proofs.TraceLemmas Proofs.TraceSettle
+  Proofs.TraceMoney.
 Import ListNotations.
 Open Scope Z_scope.
 
@@ -140,3 +141,21 @@ Theorem C02_debit_matches_issue : forall cfg s l1 l2 c cons amt, wf_cfg cfg -> R
     /\ issue_fees evs = amt.
 Proof. exact TraceSettle.debit_matches_issue. Qed.
 Print Assumptions C02_debit_matches_issue.
+
+(* fee money moves in no other way: every event has a fixed effect on the balances
+   (TraceMoney.ev_delta: EvDebit consumer -> escrow, EvTax escrow -> fee collector,
+   EvRefund escrow -> consumer, EvWithdraw escrow -> destination, EvDepositIn owner ->
+   deposit account, EvDepositOut deposit account -> owner, EvSlash burned from the deposit
+   account, every other event 0), and every successful operation other than the plain bank
+   send OTransfer changes the balances by exactly the effects of the events it appends *)
+Theorem C02_only_events_move_money : forall cfg s o s',
+  handle cfg s o = Ok s' -> (forall f t a, o <> OTransfer f t a) ->
+  exists d, log s' = d ++ log s /\ forall x, bal s' x = bal s x + evs_delta d x.
+Proof. exact TraceMoney.only_events_move_money. Qed.
+Print Assumptions C02_only_events_move_money.
+
+Theorem C02_transfer_moves : forall cfg s f t amt s',
+  handle cfg s (OTransfer f t amt) = Ok s' ->
+  log s' = log s /\ forall x, bal s' x = bal s x - into (User f) x amt + into (User t) x amt.
+Proof. exact TraceMoney.transfer_moves. Qed.
+Print Assumptions C02_transfer_moves.
